@@ -104,6 +104,8 @@ def cases(tier):
                 for first in ('hit', 'tie', 'miss', 'blank'):
                     out.append({'part': 'extract', 'spec': spec, 'length': length, 'policy': policy, 'first': first})
     out.append({'part': 'subprocess'})
+    # a file with more variables than a process keeps files open at once (xarray's file cache holds 128)
+    out.append({'part': 'clip-many', 'spec': DATASETS[0], 'variables': 140})
     return out
 
 
@@ -329,6 +331,35 @@ def run_clip(case, rec):
     rec.outcome(['clip', case['spec']['family'], case.get('slice', 0)])
 
 
+def run_clip_many(case, rec):
+    import emsarray
+    fp = f"C20/clip/{case['spec']['family']}"
+    with env.scratch_dir() as tmp:
+        ds, truth = builders.build(case['spec'])
+        for k in range(case['variables']):
+            ds[f'tracer_{k:03d}'] = ds['botz'] + k
+        source = os.path.join(tmp, 'source.nc')
+        ds.to_netcdf(source)
+        polys = ref.ref_polygons(truth)
+        geoms, _ = c07.palette(truth, polys)
+        region = geoms['cell-envelope']
+        argument = ','.join(fmt(v) for v in region.bounds)
+        cli_out = os.path.join(tmp, 'cli.nc')
+        status, message = run_cli(['clip', '--', source, argument, cli_out])
+        rec.nontrivial('many-variables')
+        if rec.check(status == 0 and os.path.exists(cli_out), f"{fp}/failed", f"clip of a file with {case['variables']} extra variables exited {status}", 0, message[-300:]):
+            work = os.path.join(tmp, 'work')
+            os.mkdir(work)
+            dataset = emsarray.open_dataset(source)
+            lib_out = os.path.join(tmp, 'lib.nc')
+            clipped = lib(dataset.ems.clip, box(*region.bounds), work)
+            lib(clipped.ems.to_netcdf, lib_out)
+            same, why = same_file_content(cli_out, lib_out)
+            rec.check(same, f"{fp}/differs-from-library", "clip of a file with many variables: output differs from the library result", 'identical', why)
+            dataset.close()
+    rec.outcome(['clip-many', case['variables']])
+
+
 def run_export(case, rec):
     import emsarray
     from emsarray.operations import geometry
@@ -514,6 +545,6 @@ def run_subprocess(case, rec):
 
 def run_case(case):
     rec = Recorder()
-    {'grammar': run_grammar, 'clip': run_clip, 'export': run_export, 'extract': run_extract,
+    {'grammar': run_grammar, 'clip': run_clip, 'clip-many': run_clip_many, 'export': run_export, 'extract': run_extract,
      'subprocess': run_subprocess}[case['part']](case, rec)
     return rec.result()
